@@ -1,5 +1,8 @@
 """C08 - pre-set options override, defaults yield, sections merge; inputs never mutated."""
+import collections
+import collections.abc
 import copy
+import functools
 
 import coreprop as cp
 import core
@@ -186,6 +189,27 @@ def run(ctx):
     late_mism, late_ops = late_correspondence(ctx, late, "Cases_C08_late")
     mism.extend(late_mism)
     stats["late_history_ops"] = late_ops
+    # round 4 (generated after everything older): (a) dictionaries handed over as every kind of mapping
+    kdone = []
+    for _ in range(45 if ctx.quick else 600):
+        for c in kind_cases(rng):
+            v, kl = check_kinds(c)
+            checks += len(c["scn"]["ops"])
+            kk = f"mapping kind {c['kind']}: {c['plan']}"
+            kinds[kk] = kinds.get(kk, 0) + 1
+            violations.extend(v)
+            kdone.append((c, kl))
+    kmism, kops = kind_correspondence(ctx, kdone, "Cases_C08_kinds")
+    mism.extend(kmism)
+    stats["mapping_kind_ops"] = kops
+    # ... (b) the decorator applied to every kind of definition it accepts (oracle-only)
+    for _ in range(400 if ctx.quick else 6000):
+        for c in wrap_cases(rng):
+            v, k = check_wrap(c)
+            checks += k
+            kk = f"definition kind {c['defn']['kind']}"
+            kinds[kk] = kinds.get(kk, 0) + 1
+            violations.extend(v)
     return {
         "evaluations": checks + stats["ops"],
         "distinct_nontrivial": len(distinct),
@@ -196,17 +220,741 @@ def run(ctx):
                 "Histories: derivatives (with_options / with_default_options chains, WithOptions wrappers) made BEFORE an overload is registered on their "
                 "base (register, @overload on a function / a dataset / a list alias, an implementation class of an interface the base is a member of), "
                 "with value-neutral mutators interleaved, evaluated after it and compared with the plain base described with everything registered. "
-                "Mutation: deep snapshots of the caller's dictionary and of every pre-set dictionary around evaluate/validate/keys/explain.",
+                "Mutation: deep snapshots of the caller's dictionary and of every pre-set dictionary around evaluate/validate/keys/explain. "
+                "Round 4: (a) the caller's and the pre-set dictionaries handed over as every kind of mapping the unchanged library accepts in that position "
+                "(OrderedDict, dict subclass, defaultdict with dict/int/list factories, dict subclasses with an inserting / a non-inserting __missing__, ChainMap "
+                "over 2-3 maps with shadowed entries, UserDict, a user Mapping; top level, one root object per run: decorated datasets with both / one layer, "
+                "their derivatives, the plain copy, wrapper chains): evaluate/validate(/keys/explain) compared with the same calls with plain dictionaries and with "
+                "the plain object under the independently overlaid dictionary, kind-aware deep snapshots of every mapping handed to labrea, and the model against "
+                "the implementation called with the kinds; (b) the dataset decorator (options=/default_options=/dispatch/callback/cache/effects, three spellings) "
+                "applied to every kind of definition wrap() accepts (function, lambda, partial, callable instance, bound/class/static method, class, wraps "
+                "wrapper, function/partial/instance/class carrying attributes named like Dataset fields, already-built datasets with layers/dispatch/registrations "
+                "of their own and their derivatives, Option, WithOptions/WithDefaultOptions, lifted application, Value, Coalesce), its derivatives and the "
+                "definition itself, against a reference written from the property's text (oracle-only), with snapshots of every dictionary involved.",
         "samples": [dict(kind=c["kind"], options=repr(c["o"]), overlaid=repr(c["eff"])) for c in (cases(ctx.rng)[0][:3])],
-        "traces_validated_against_impl": stats["ops"] + late_ops,
+        "traces_validated_against_impl": stats["ops"] + late_ops + kops,
         "correspondence_mismatches": mism[:5],
         "violations": violations,
         "known": known_findings(),
         "distribution": dict(stats, oracle_checks=checks, by_kind=kinds, tagged=tagged),
         "exhaustive": False,
-        "assumptions": ["the model is pure: 'inputs never mutated' is decided on the implementation by deep snapshots (runtime part, partial)"],
+        "assumptions": ["the model is pure: 'inputs never mutated' is decided on the implementation by deep snapshots (runtime part, partial)",
+                        "kinds of mappings (round 4) are generated only where the unchanged library supports them (measured on /repo): non-dict Mappings are "
+                        "dropped where they are the dish of confectioner.mix (default layers, the caller of a bare forced wrapper, the options= of a dataset a "
+                        "derivative is made from), MappingProxyType raises MixError, keys()/explain() index defaultdict-like pre-set / caller objects "
+                        "themselves (they insert: reported separately, not asserted), a defaultdict-like default layer makes the mixed dictionary "
+                        "defaultdict-like (snapshots only there); sections stay plain dictionaries",
+                        "the definitions of family (b) are oracle-only: the core model's dataset record has a function body, not an arbitrary definition object"],
         "trusted_base": ["confectioner.mix is modelled (Base.mix) and validated by the correspondence; the oracle's overlay is an independent re-implementation of the property text"],
     }
+
+
+# ----------------------------------------------------------------------------- round 4 (a): kinds of mappings
+# Options is `Mapping[str, JSON]`.  The caller's dictionary and every pre-set dictionary are handed over as the kinds of mapping
+# a user legitimately has: OrderedDict, a dict subclass, collections.defaultdict / a dict subclass with __missing__ (lookups of
+# absent keys answer, and possibly INSERT), a collections.ChainMap spread over several maps (with shadowed entries below), a
+# UserDict, a user collections.abc.Mapping - at the TOP LEVEL (sections stay plain dictionaries).  The property's sentences do
+# not depend on the kind: the call must give what the plain object gives under the independently overlaid plain dictionary
+# (= what the same call gives with plain dicts), and no input mapping may be modified (deep snapshot of every object handed to
+# labrea: the caller's mapping, the mappings given as options= / default_options= / with_options / with_default_options /
+# WithOptions / WithDefaultOptions pre-sets).
+#
+# What the UNCHANGED library supports was measured first (notes in the claim file); the family stays inside it:
+#   * a non-dict Mapping is dropped by confectioner.mix where it is the DISH (default_options=, a WithDefaultOptions pre-set, the
+#     caller of a bare WithOptions(force=True), the options= of a dataset from which a derivative is made): not generated there;
+#   * types.MappingProxyType cannot be copied by mix (MixError): not generated;
+#   * a defaultdict-like default layer / caller of a bare WithOptions(force=True) makes the mixed dictionary a defaultdict-like
+#     copy (absent options read as the factory's value): there only the snapshots are checked, under evaluate and validate;
+#   * keys()/explain() index the pre-set and the caller's mapping themselves (`_preset`): with a defaultdict-like object that
+#     inserts (reported as a candidate finding, not asserted here): keys/explain are run on such objects only where no such
+#     lookup can happen (a caller's mapping given to a root without a default layer).
+
+class OptsDict(dict):
+    """a dict subclass without behaviour of its own"""
+
+
+class MissingDict(dict):
+    """lookups of absent keys insert and return a fresh section"""
+
+    def __missing__(self, k):
+        self[k] = {}
+        return self[k]
+
+
+class MissingZero(dict):
+    """lookups of absent keys answer 0 (nothing inserted)"""
+
+    def __missing__(self, k):
+        return 0
+
+
+class FrozenOptions(collections.abc.Mapping):
+    """a minimal read-only user Mapping (not a dict subclass)"""
+
+    def __init__(self, data):
+        self._data = dict(data)
+
+    def __getitem__(self, k):
+        return self._data[k]
+
+    def __iter__(self):
+        return iter(self._data)
+
+    def __len__(self):
+        return len(self._data)
+
+
+def _chain(d, shadow):
+    ks = list(d)
+    n = 3 if len(ks) >= 3 else 2
+    maps = [{k: d[k] for k in ks[i::n]} for i in range(n)]
+    if shadow:      # lower maps hold OTHER values (and other sections) for keys an upper map defines: the upper one counts
+        for i in range(1, n):
+            for j in range(i):
+                for k in maps[j]:
+                    maps[i][k] = {"shadowed": i} if isinstance(d[k], dict) else f"shadowed{i}"
+    return collections.ChainMap(*maps)
+
+
+MAPPING_KINDS = {
+    "ordered": lambda d: collections.OrderedDict((k, d[k]) for k in reversed(list(d))),
+    "subclass": OptsDict,
+    "ddict": lambda d: collections.defaultdict(dict, d),
+    "dint": lambda d: collections.defaultdict(int, d),
+    "dlist": lambda d: collections.defaultdict(list, d),
+    "missing": MissingDict,
+    "missing0": MissingZero,
+    "chain": lambda d: _chain(d, False),
+    "chain_shadow": lambda d: _chain(d, True),
+    "userdict": collections.UserDict,
+    "mapping": FrozenOptions,
+}
+BENIGN_KINDS = ["ordered", "subclass"]
+SE_KINDS = ["ddict", "dint", "dlist", "missing", "missing0"]          # lookups of absent keys answer / insert
+ND_KINDS = ["chain", "chain_shadow", "userdict", "mapping"]          # not dict subclasses
+
+
+def snap(m):
+    """deep, kind-aware snapshot of a mapping handed to labrea"""
+    if isinstance(m, collections.ChainMap):
+        return ("chain", [copy.deepcopy(dict(x)) for x in m.maps])
+    if isinstance(m, collections.UserDict):
+        return ("userdict", copy.deepcopy(m.data))
+    if isinstance(m, FrozenOptions):
+        return ("mapping", copy.deepcopy(m._data))
+    return (type(m).__name__, copy.deepcopy(dict(m)))
+
+
+def root_positions(scn, idx):
+    """the dictionaries of the scenario description that labrea receives for the root object exprs[idx], with their position:
+    'P' forced pre-set (options= of the root dataset, a WithOptions pre-set of the wrapper chain at the root), 'D' default layer
+    (default_options=, WithDefaultOptions), 'W' argument of with_options / with_default_options along the root's derivation chain"""
+    out = []
+    e = scn["exprs"][idx]
+    outer = None
+    while e[0] == "with":
+        out.append((e[2], "P" if e[1] else "D"))
+        if outer is None:
+            outer = "force" if e[1] else "default"
+        e = e[3]
+    has_default = any(p == "D" for _, p in out)
+    derived = False
+    if e[0] == "dataset" and outer is None:
+        d = scn["env"][e[1]]
+        while d.get("derived") is not None:
+            derived = True
+            out.append((d["preset"], "W"))
+            if d["how"] == "with_default_options" and d["preset"]:
+                has_default = True
+            d = scn["env"][d["derived"]]
+        if d.get("default_options"):
+            has_default = True
+        if not derived:      # (a derivative copies its base's layers through mix: the base's own dictionaries stay plain there)
+            if d.get("options"):
+                out.append((d["options"], "P"))
+            if d.get("default_options"):
+                out.append((d["default_options"], "D"))
+        outer = "dataset"
+    return out, outer, has_default
+
+
+def kind_plans(scn, idx, kind):
+    """the runs of one root with one kind of mapping that the unchanged library supports:
+    (mode, positions realised as the kind, caller realised?, methods, compare values?)"""
+    pos, outer, has_default = root_positions(scn, idx)
+    if outer is None:
+        return []        # a bare expression: its Option lookups index the caller's mapping directly (the user's own semantics)
+    ev, all4 = ("evaluate", "validate"), ("evaluate", "validate", "keys", "explain")
+    P = [d for d, p in pos if p == "P"]
+    W = [d for d, p in pos if p == "W"]
+    D = [d for d, p in pos if p == "D"]
+    plans = []
+    if kind in BENIGN_KINDS:
+        plans.append(("every position", P + W + D, True, all4, True))
+    elif kind in ND_KINDS:
+        if outer != "force":
+            plans.append(("caller", [], True, all4, True))
+        if P or W:
+            plans.append(("pre-set", P + W, False, all4, True))
+        if outer != "force" and (P or W):
+            plans.append(("caller and pre-set", P + W, True, all4, True))
+    else:
+        if outer == "force":
+            plans.append(("caller", [], True, ev, False))
+        else:
+            plans.append(("caller", [], True, ev if has_default else all4, True))
+        if P or W:
+            plans.append(("pre-set", P + W, False, ev, True))
+            if outer != "force":
+                plans.append(("caller and pre-set", P + W, True, ev, True))
+        if D:
+            plans.append(("default layer", D, False, ev, False))
+    return plans
+
+
+def run_kinded(scn, kind, realised, caller):
+    """core.run_impl with the dictionaries in `realised` (by identity) and, if `caller`, the caller's dictionary of every op handed
+    over as `kind` (top level only).  Returns (lines, raws, [(what, live mapping, snapshot before)])"""
+    ids = {id(d): "pre-set" for d in realised}
+    if caller:
+        for op in scn["ops"]:
+            ids[id(op[4])] = "caller"
+    held = []
+    depth = [0]
+    orig = core.py_json
+
+    def kinded(j):
+        depth[0] += 1
+        try:
+            r = orig(j)        # (its recursive calls come back here with depth > 1: sections stay plain)
+        finally:
+            depth[0] -= 1
+        if depth[0] == 0 and isinstance(r, dict):
+            what = ids.get(id(j))
+            if what is not None:
+                r = MAPPING_KINDS[kind](r)
+            held.append((what or "plain", r, snap(r), repr(r)))
+        return r
+    core.py_json = kinded
+    try:
+        raws = []
+        lines = core.run_impl(scn, raw_out=raws)
+    finally:
+        core.py_json = orig
+    return lines, raws, held
+
+
+def check_kinds(c):
+    """the oracle on one (scenario, root, kind, plan) case; returns (violations, kinded lines)"""
+    scn = c["scn"]
+    realised = [d for d, _ in root_positions(scn, 0)[0]]
+    realised = [realised[i] for i in c["realise"]]
+    out = []
+    kl, kr, held = run_kinded(scn, c["kind"], realised, c["caller"])
+    for what, live, before, rep in held:
+        if snap(live) != before or repr(live) != rep:
+            out.append(dict(desc=f"an input mapping ({what}, handed over as {type(live).__name__}) was modified by {'/'.join(sorted({op[0] for op in scn['ops']}))}",
+                            before=rep, after=repr(live), mapping_kind=c["kind"], plan=c["plan"], finding=None, kind_case=cp.dump_scn(c)))
+            return out, kl
+    if c["compare"]:
+        pr = []
+        pl = core.run_impl(scn, raw_out=pr)
+        for j, (op, a, ra, b, rb) in enumerate(zip(scn["ops"], kl, kr, pl, pr)):
+            same = cp.same_outcome(a, ra, b, rb) if op[0] in ("evaluate", "validate") else cp.outcome(a) == cp.outcome(b)
+            if not same:
+                out.append(dict(desc=f"{op[0]} with the {c['plan']} dictionary handed over as a {c['kind']} mapping differs from the same call with plain dictionaries "
+                                     "(which is the plain object under the independently overlaid dictionary)",
+                                op_index=j, got=cp.outcome(a), want=cp.outcome(b), options=repr(op[4]), mapping_kind=c["kind"], plan=c["plan"],
+                                finding=None, kind_case=cp.dump_scn(c)))
+                return out, kl
+        if c.get("eff") is not None:
+            # the property's own sentence on the first calls of the history (ops[0] / ops[1] = evaluate / validate under c["o"] on a fresh
+            # graph): the plain object under the independently overlaid dictionary
+            for j, meth in enumerate(("evaluate", "validate")):
+                assert scn["ops"][j][0] == meth and scn["ops"][j][4] == c["o"]
+                b = cp.fresh_eval(c["ref_scn"], c["rhs"], c["eff"], method=meth, disabled=False, raw=True)
+                if not cp.same_outcome(kl[j], kr[j], b[0], b[1]):
+                    out.append(dict(desc=f"{meth} with the {c['plan']} dictionary handed over as a {c['kind']} mapping differs from {meth} of the plain object under "
+                                         "the independently overlaid dictionary", op_index=j, got=cp.outcome(kl[j]), want=cp.outcome(b[0]),
+                                    options=repr(c["o"]), overlaid=repr(c["eff"]), mapping_kind=c["kind"], plan=c["plan"], finding=None,
+                                    kind_case=cp.dump_scn(c)))
+                    return out, kl
+    return out, kl
+
+
+def kind_cases(rng):
+    """cases of the round-4 (a) family drawn from the same scenario generator as the older streams"""
+    cs, base, pool = cases(rng)
+    out = []
+    picked = [c for c in cs if "seq" not in c]
+    rng.shuffle(picked)
+    for c in picked[:3]:
+        for idx, eff_known in ((c["lhs"], True), (c["rhs"], False)):
+            if not eff_known and rng.random() < 0.5:
+                continue
+            scn = cp.load_scn(cp.dump_scn(dict(c["scn"], exprs=[c["scn"]["exprs"][idx]], ops=[])))      # a private copy: no shared objects
+            root = scn["exprs"][0]
+            if root[0] == "dataset" and scn["env"][root[1]].get("derived") is None and rng.random() < 0.5:
+                # the decorated dataset with only one of its two layers (an EMPTY other layer is a different path through the merge)
+                d = dict(scn["env"][root[1]])
+                d.pop(rng.choice(["options", "default_options"]), None)
+                scn["env"][root[1]] = d
+                eff_known = False
+            kind = rng.choice(BENIGN_KINDS + SE_KINDS + SE_KINDS + ND_KINDS + ND_KINDS)
+            plans = kind_plans(scn, 0, kind)
+            if not plans:
+                continue
+            pos = [d for d, _ in root_positions(scn, 0)[0]]
+            os_ = [copy.deepcopy(c["o"]), {}] + ([copy.deepcopy(rng.choice(pool))] if rng.random() < 0.4 else [])
+            if rng.random() < 0.3:
+                os_.reverse()
+            first = os_[0] is not os_[-1] and os_[0] == c["o"]
+            for plan, realised, caller, meths, compare in plans:
+                ops = [(m, 0, False, False, o) for o in os_ for m in meths]
+                out.append(dict(kind=kind, plan=plan, caller=caller, compare=compare, realise=[i for i, d in enumerate(pos) if any(d is r for r in realised)],
+                                scn=dict(scn, ops=ops), o=c["o"], eff=c["eff"] if (eff_known and first) else None,
+                                ref_scn=dict(c["scn"], ops=[]) if (eff_known and first) else None, rhs=c["rhs"], source=c["kind"]))
+    return out
+
+
+def kind_correspondence(ctx, done, name):
+    """the model (which sees the key -> value function only) vs the implementation called with the kinds of mappings"""
+    todo = [(c, kl) for c, kl in done if c["compare"]]
+    mism, ops = [], 0
+    outs = ctx.coq_eval(name, cp.REQ, "", [core.coq_scenario(c["scn"]) for c, _ in todo], shard=30) if todo else []
+    for (c, kl), mo in zip(todo, outs):
+        ml = mo.split(" ## ")
+        scn = c["scn"]
+        multi = cp._multi_ref(scn["exprs"]) or cp._multi_ref(scn["env"]) or cp._multi_ref([op[4] for op in scn["ops"]])
+        for j, (a, b) in enumerate(zip(kl, ml)):
+            ops += 1
+            if not cp.same(a, b, multi):
+                mism.append(dict(where=f"Model/Eval.v vs labrea called with the {c['plan']} dictionary as a {c['kind']} mapping", op_index=j, op=repr(scn["ops"][j]),
+                                 impl=a, model=cp.strip_ghost(b), kind_case=cp.dump_scn(c)))
+                break
+            if "unmod" in cp.split(cp.strip_ghost(b))[0]:
+                break
+    return mism, ops
+
+
+# ----------------------------------------------------------------------------- round 4 (b): every kind of definition the decorator accepts
+# `dataset(options=P, default_options=D, ...)(definition)`: DatasetFactory.wrap accepts any callable it can lift (a function, a lambda,
+# a functools.partial, a callable instance, a bound / class / static method, a class, a functools.wraps wrapper, a function object
+# carrying attributes of its own) and any Evaluatable (an already-built dataset - plain, with layers, dispatch, registrations,
+# callback, cache and effects of its own, or a with_options / with_default_options derivative - an Option, a WithOptions /
+# WithDefaultOptions wrapper, a lifted application, a Value, a Coalesce).  The property's sentence "this holds ... for the
+# options/default_options arguments of the dataset decorator ... on any dataset whatever its callback, effects, dispatch or cache,
+# and it composes when nested" is checked against a reference written from the property's text only (plain nested dictionaries,
+# the 8-line overlay, a table lookup for the dispatch): the decorated object under o gives callback(what the definition gives under
+# D overlaid by o overlaid by P), its with_options / with_default_options derivatives compose, the definition itself (when it is a
+# dataset) keeps evaluating as before whatever is registered on / evaluated through the new dataset, and no dictionary handed to
+# labrea (P, D, the definition's own layers, attribute values of the definition, the caller's dictionaries) is modified.
+# Oracle-only: the core model's dataset record has a function body, not an arbitrary definition object.
+
+W_KEYS = ["S.A", "S.B", "T.C", "T.E", "U", "M"]
+W_VALS = [1, 2, 3, "x", "y", None, True, 2.5]
+W_ALIASES = ["a", "b", "c", 7]
+FIELD_NAMES = ["options", "default_options", "overloads", "cache", "callback", "effects", "_effects_disabled", "fmt"]
+DEF_KINDS = ["function", "lambda", "partial", "partial_kw", "callable_instance", "bound_method", "classmethod", "staticmethod", "class",
+             "function_attrs", "wraps", "dataset", "dataset", "dataset_derived", "option", "with_options", "with_default_options",
+             "application", "value", "coalesce"]
+
+
+def w_get(d, dotted):
+    for seg in dotted.split("."):
+        if not isinstance(d, dict) or seg not in d:
+            return False, None
+        d = d[seg]
+    return True, d
+
+
+def w_dict(rng, p=0.5):
+    out = {}
+    for k in W_KEYS:
+        if rng.random() < p:
+            v = rng.choice(W_ALIASES) if k == "M" else rng.choice([x for x in W_VALS if x is not None])
+            if "." in k:
+                out.setdefault(k.split(".")[0], {})[k.split(".")[1]] = v
+            else:
+                out[k] = v
+    return out
+
+
+def w_reads(rng):
+    ks = rng.sample(W_KEYS, rng.randint(1, 4))
+    return [[k, rng.choice([None, None, "dflt-" + k, 0])] for k in ks]
+
+
+def w_fnnode(rng, tag):
+    return ["fn", tag, w_reads(rng)]
+
+
+class WFail(Exception):
+    pass
+
+
+def w_ref_fn(node, eff):
+    vals = []
+    for k, dflt in node[2]:
+        ok, v = w_get(eff, k)
+        if not ok:
+            if dflt is None:
+                raise WFail(k)
+            v = dflt
+        vals.append(v)
+    return ("t", node[1], tuple(vals))
+
+
+def w_ref_ds(spec, table, o):
+    """a dataset per the property's text: layers, dispatch by table lookup, callback outside"""
+    eff = overlay(overlay(spec.get("D") or {}, o), spec.get("P") or {})
+    impl = None
+    if spec.get("dispatch"):
+        ok, v = w_get(eff, spec["dispatch"][1])
+        if not ok and len(spec["dispatch"]) > 2:
+            ok, v = True, spec["dispatch"][2]
+        if ok:
+            try:
+                impl = table.get(v)
+            except TypeError:
+                impl = None
+    r = w_ref_fn(impl, eff) if impl is not None else spec["body"](eff)
+    return ("cb", spec["cb"], r) if spec.get("cb") is not None else r
+
+
+class WrapWorld:
+    """the live objects of one case, built through the public API only"""
+
+    def __init__(self, c):
+        import labrea
+        self.L = labrea
+        self.c = c
+        self.held = []          # (what, live dictionary, deep snapshot)
+        self.effects = []
+        self.keep = []
+
+    def give(self, what, d):
+        """a private copy of a description dictionary, handed to labrea and watched"""
+        live = copy.deepcopy(d)
+        self.held.append((what, live, copy.deepcopy(live), repr(live)))
+        return live
+
+    def opt(self, k, dflt):
+        return self.L.Option(k) if dflt is None else self.L.Option(k, dflt)
+
+    def fn(self, node, extra=0):
+        """a python function def f(a0=Option(..), ...) returning ('t', tag, values)"""
+        tag, reads = node[1], node[2]
+        names = [f"a{i}" for i in range(len(reads))]
+        ns = {"tag": tag}
+        src = "def f(" + ", ".join(f"{a}=None" for a in names) + "):\n    return ('t', tag, (" + "".join(a + ", " for a in names) + "))\n"
+        exec(src, ns)
+        f = ns["f"]
+        f.__defaults__ = tuple(self.opt(k, d) for k, d in reads)
+        f.__name__ = f.__qualname__ = f"body{tag}"
+        self.keep.append(f)
+        return f
+
+    def set_attrs(self, obj, attrs):
+        for name, v in attrs.items():
+            setattr(obj, name, self.give(f"attribute {name} of the definition", v) if isinstance(v, dict) else copy.deepcopy(v))
+
+    def definition(self, d):
+        """(the definition object, reference function eff -> value)"""
+        L = self.L
+        from labrea.application import FunctionApplication
+        kind, node, attrs = d["kind"], d["node"], d.get("attrs") or {}
+
+        def body(eff):
+            return w_ref_fn(node, eff)
+        if kind == "function":
+            return self.fn(node), body
+        if kind == "function_attrs":
+            f = self.fn(node)
+            self.set_attrs(f, attrs)
+            return f, body
+        if kind == "lambda":
+            opts = [self.opt(k, dv) for k, dv in node[2]] + [None] * 4
+            n, tag = len(node[2]), node[1]
+            f = [lambda: ("t", tag, ()), lambda a=opts[0]: ("t", tag, (a,)), lambda a=opts[0], b=opts[1]: ("t", tag, (a, b)),
+                 lambda a=opts[0], b=opts[1], c=opts[2]: ("t", tag, (a, b, c)),
+                 lambda a=opts[0], b=opts[1], c=opts[2], e=opts[3]: ("t", tag, (a, b, c, e))][n]
+            return f, body
+        if kind == "partial":
+            f = functools.partial(self.fn(node))
+            self.set_attrs(f, attrs)
+            return f, body
+        if kind == "partial_kw":      # the last parameter's Option is supplied by the partial, the function's own default is another one
+            g = self.fn(node)
+            dfl = list(g.__defaults__)
+            real, dfl[-1] = dfl[-1], self.opt("NOT.THIS", "wrong")
+            g.__defaults__ = tuple(dfl)
+            f = functools.partial(g, **{f"a{len(dfl) - 1}": real})
+            self.set_attrs(f, attrs)
+            return f, body
+        if kind == "wraps":
+            g = self.fn(node)
+
+            @functools.wraps(g)
+            def f(*a, **k):
+                return g(*a, **k)
+            self.set_attrs(f, attrs)
+            return f, body
+        if kind in ("callable_instance", "bound_method", "classmethod", "staticmethod"):
+            g = self.fn(node)
+            names = [f"a{i}" for i in range(len(node[2]))]
+            ns = {"g": g}
+            exec("def m(self, " + ", ".join(f"{a}=None" for a in names) + "):\n    return g(" + ", ".join(names) + ")\n"
+                 "def s(" + ", ".join(f"{a}=None" for a in names) + "):\n    return g(" + ", ".join(names) + ")\n", ns)
+            ns["m"].__defaults__ = ns["s"].__defaults__ = g.__defaults__
+            if kind == "callable_instance":
+                cls = type("Loader", (), {"__call__": ns["m"]})
+                obj = cls()
+                self.set_attrs(obj, attrs)
+                return obj, body
+            if kind == "bound_method":
+                self.set_attrs(ns["m"], attrs)       # (a bound method shows its function's attributes)
+                cls = type("Loader", (), {"load": ns["m"]})
+                obj = cls()
+                self.keep.append(obj)
+                return obj.load, body
+            if kind == "classmethod":
+                self.set_attrs(ns["m"], attrs)
+                cls = type("Loader", (), {"load": classmethod(ns["m"])})
+                return cls.load, body
+            self.set_attrs(ns["s"], attrs)
+            cls = type("Loader", (), {"load": staticmethod(ns["s"])})
+            return cls.load, body
+        if kind == "class":
+            g = self.fn(node)
+            names = [f"a{i}" for i in range(len(node[2]))]
+            ns = {"g": g}
+            exec("def __init__(self, " + ", ".join(f"{a}=None" for a in names) + "):\n    self.record = g(" + ", ".join(names) + ")\n", ns)
+            ns["__init__"].__defaults__ = g.__defaults__
+            clsns = {"__init__": ns["__init__"]}
+            for name, v in attrs.items():
+                clsns[name] = self.give(f"class attribute {name} of the definition", v) if isinstance(v, dict) else copy.deepcopy(v)
+            return type("Record", (), clsns), body
+        if kind == "application":
+            return FunctionApplication.lift(self.fn(node)), body
+        if kind == "option":
+            k, dv = node[2][0]
+            return self.opt(k, dv), (lambda eff: w_ref_fn(["fn", 0, [[k, dv]]], eff)[2][0])
+        if kind == "value":
+            return L.Value(("t", node[1], ())), (lambda eff: ("t", node[1], ()))
+        if kind == "coalesce":
+            (k1, _), (k2, d2) = (node[2] + node[2])[:2]
+
+            def ref(eff):
+                ok, v = w_get(eff, k1)
+                return v if ok else w_ref_fn(["fn", 0, [[k2, d2]]], eff)[2][0]
+            return L.Coalesce(L.Option(k1), self.opt(k2, d2)), ref
+        if kind in ("with_options", "with_default_options"):
+            q = d["Q"]
+            force = kind == "with_options"
+            obj = L.WithOptions(FunctionApplication.lift(self.fn(node)), self.give("pre-set dictionary of the definition (a wrapper)", q), force=force)
+            return obj, (lambda eff: w_ref_fn(node, overlay(eff, q) if force else overlay(q, eff)))
+        if kind in ("dataset", "dataset_derived"):
+            inner, ref = self.inner_dataset(d)
+            return inner, ref
+        raise AssertionError(kind)
+
+    def deco_kwargs(self, spec, what):
+        L = self.L
+        from labrea.cache import MemoryCache, NoCache
+        kw = {}
+        if spec.get("P"):
+            kw["options"] = self.give(f"options= of {what}", spec["P"])
+        if spec.get("D"):
+            kw["default_options"] = self.give(f"default_options= of {what}", spec["D"])
+        if spec.get("cb") is not None:
+            c = spec["cb"]
+
+            def cb(v):
+                return ("cb", c, v)
+            self.keep.append(cb)
+            kw["callback"] = cb
+        if spec.get("dispatch"):
+            dsp = spec["dispatch"]
+            kw["dispatch"] = dsp[1] if dsp[0] == "str" else self.opt(dsp[1], dsp[2] if len(dsp) > 2 else None)
+        if spec.get("cache") == "mem":
+            kw["cache"] = MemoryCache()
+        elif spec.get("cache") == "none":
+            kw["cache"] = NoCache()
+        elif spec.get("cache") == "factory":
+            kw["cache"] = MemoryCache
+        if spec.get("effects"):
+            log = self.effects
+
+            def eff(v):
+                log.append(what)
+            self.keep.append(eff)
+            kw["effects"] = [eff]
+        return kw
+
+    def register(self, obj, spec, alias, node, how):
+        from labrea.application import FunctionApplication
+        if how == "register":
+            obj.register(alias, FunctionApplication.lift(self.fn(node)))
+        elif how == "overload":
+            obj.overload(alias)(self.fn(node))
+        else:
+            obj.overload([alias])(self.fn(node))
+
+    def inner_dataset(self, d):
+        spec = d["inner"]
+        node = d["node"]
+        inner = self.L.dataset(self.fn(node), **self.deco_kwargs(spec, "the definition (a dataset)"))
+        self.inner_table = {}
+        for alias, n2, how in spec.get("registrations", []):
+            self.register(inner, spec, alias, n2, how)
+            self.inner_table[alias] = n2
+        self.inner_base = inner
+        rspec = dict(spec, body=lambda eff: w_ref_fn(node, eff))
+        if d["kind"] == "dataset_derived":
+            how, p = d["derive"]
+            live = self.give(f"{how} argument of the definition (a derivative)", p)
+            inner = inner.with_options(live) if how == "with_options" else inner.with_default_options(live)
+            rspec = dict(rspec, **({"P": overlay(spec.get("P") or {}, p)} if how == "with_options" else {"D": overlay(spec.get("D") or {}, p)}))
+        table = self.inner_table
+        return inner, (lambda eff: w_ref_ds(rspec, table, eff))
+
+
+def wrap_cases(rng):
+    kind = rng.choice(DEF_KINDS)
+    d = dict(kind=kind, node=w_fnnode(rng, 1))
+    if kind == "partial_kw" and not d["node"][2]:
+        d["node"][2] = [["U", 0]]
+    if kind in ("function_attrs", "callable_instance", "class", "partial", "partial_kw", "bound_method", "classmethod", "staticmethod", "wraps"):
+        attrs = {}
+        for name in rng.sample(FIELD_NAMES, rng.randint(1, 4)):
+            attrs[name] = rng.choice([w_dict(rng), w_dict(rng), "text", None, True, [1, 2], 0])
+        if kind == "function_attrs" or rng.random() < 0.6:
+            d["attrs"] = attrs
+    if kind in ("with_options", "with_default_options"):
+        d["Q"] = w_dict(rng, 0.4)
+    if kind in ("dataset", "dataset_derived"):
+        inner = dict(P=w_dict(rng, 0.3) if rng.random() < 0.6 else {}, D=w_dict(rng, 0.3) if rng.random() < 0.6 else {},
+                     cb=rng.choice([None, 5]), cache=rng.choice([None, None, "mem", "none", "factory"]), effects=rng.random() < 0.4)
+        if rng.random() < 0.6:
+            inner["dispatch"] = rng.choice([["str", "M"], ["opt", "M"], ["opt", "M", "a"], ["str", "T.E"]])
+            inner["registrations"] = [[a, w_fnnode(rng, 20 + i), rng.choice(["register", "overload", "overload_list"])]
+                                      for i, a in enumerate(rng.sample(W_ALIASES, rng.randint(0, 2)))]
+        d["inner"] = inner
+        if kind == "dataset_derived":
+            d["derive"] = [rng.choice(["with_options", "with_default_options"]), w_dict(rng, 0.3)]
+    deco = dict(P=w_dict(rng, 0.4) if rng.random() < 0.85 else {}, D=w_dict(rng, 0.4) if rng.random() < 0.7 else {},
+                cb=rng.choice([None, None, 9]), cache=rng.choice([None, None, "mem", "none", "factory"]), effects=rng.random() < 0.3,
+                spelling=rng.choice(["direct", "factory", "split"]))
+    if rng.random() < 0.5:
+        deco["dispatch"] = rng.choice([["str", "M"], ["opt", "M"], ["opt", "M", "b"], ["str", "S.A"]])
+        deco["registrations"] = [[a, w_fnnode(rng, 40 + i), rng.choice(["register", "overload", "overload_list"])]
+                                 for i, a in enumerate(rng.sample(W_ALIASES, rng.randint(0, 2)))]
+    # dictionaries that overlap the layers inside the same section, and select registered aliases now and then
+    os_ = [w_dict(rng, 0.5) for _ in range(rng.randint(2, 3))] + [{}]
+    for o in os_[:2]:
+        if rng.random() < 0.5:
+            o["M"] = rng.choice(W_ALIASES)
+    derive = [[rng.choice(["with_options", "with_default_options"]), w_dict(rng, 0.3)] for _ in range(rng.choice([0, 1, 1, 2]))]
+    whos = ["new"] + (["inner"] if kind in ("dataset", "dataset_derived") else []) + (["derived"] if derive else [])
+    hist = []
+    for o in os_:
+        for who in whos:
+            if rng.random() < 0.8:
+                hist.append([rng.choice(["evaluate", "evaluate", "validate", "keys"]), who, o])
+    rng.shuffle(hist)
+    # the same dictionary through the new dataset, the definition and the derivative in turn (each has a cache of its own to answer from)
+    hist = [["evaluate", who, os_[0]] for who in whos + ["new"]] + hist
+    late_inner = []
+    if kind in ("dataset", "dataset_derived") and d["inner"].get("dispatch") and rng.random() < 0.5:
+        free = [a for a in W_ALIASES if a not in [r[0] for r in d["inner"].get("registrations", [])]]
+        late_inner = [[rng.choice(free), w_fnnode(rng, 60), "register"]]      # registered on the definition AFTER the new dataset exists
+    return [dict(defn=d, deco=deco, derive=derive, hist=hist, late_inner=late_inner)]
+
+
+def check_wrap(c):
+    """the oracle on one case: returns (violations, number of checks)"""
+    try:
+        return _check_wrap(c)
+    except Exception as exc:  # noqa  (the unchanged library builds, registers on and derives from every generated definition)
+        return [dict(desc=f"dataset decorator applied to a definition of kind '{c['defn']['kind']}': building the decorated object, registering on it or "
+                          f"deriving from it raised {type(exc).__name__}", step=-1, op=None, got=type(exc).__name__, want="no exception",
+                     definition_kind=c["defn"]["kind"], finding=None, wrap_case=cp.dump_scn(c))], 1
+
+
+def _check_wrap(c):
+    import labrea
+    w = WrapWorld(c)
+    d, deco = c["defn"], c["deco"]
+    defn, dref = w.definition(d)
+    kw = w.deco_kwargs(deco, "the decorator")
+    if deco["spelling"] == "direct":
+        new = labrea.dataset(defn, **kw)
+    elif deco["spelling"] == "factory":
+        new = labrea.dataset(**kw)(defn)
+    else:
+        first = {k: v for k, v in kw.items() if k in ("options", "cache", "dispatch")}
+        new = labrea.dataset(**first)(defn, **{k: v for k, v in kw.items() if k not in first})
+    table = {}
+    for alias, n2, how in deco.get("registrations", []):
+        w.register(new, deco, alias, n2, how)
+        table[alias] = n2
+    for alias, n2, how in c["late_inner"]:
+        w.register(w.inner_base, d["inner"], alias, n2, how)
+        w.inner_table[alias] = n2
+    objs = {"new": new, "inner": defn}
+    nspec = dict(deco, body=dref)
+    refs = {"new": lambda o: w_ref_ds(nspec, table, o), "inner": dref}
+    if c["derive"]:
+        y, yspec = new, dict(nspec)
+        for how, p in c["derive"]:
+            live = w.give(f"{how} argument", p)
+            if how == "with_options":
+                y, yspec = y.with_options(live), dict(yspec, P=overlay(yspec.get("P") or {}, p))
+            else:
+                y, yspec = y.with_default_options(live), dict(yspec, D=overlay(yspec.get("D") or {}, p))
+        objs["derived"] = y
+        refs["derived"] = lambda o: w_ref_ds(yspec, table, o)
+    out, checks = [], 0
+
+    def canon(v):
+        if type(v).__name__ == "Record":
+            return v.record
+        if isinstance(v, tuple) and len(v) == 3 and v[0] == "cb":
+            return ("cb", v[1], canon(v[2]))
+        return v
+    for j, (meth, who, o) in enumerate(c["hist"]):
+        live = w.give("the caller's dictionary", o)
+        try:
+            want = ("ok", refs[who](o))
+        except WFail:
+            want = ("err",)
+        try:
+            r = getattr(objs[who], meth)(live)
+            got = ("ok", canon(r)) if meth == "evaluate" else ("ok",)
+        except Exception as exc:  # noqa
+            got = ("err", type(exc).__name__)
+        checks += 1
+        bad = None
+        if meth == "evaluate" and (got[0] != want[0] or (got[0] == "ok" and not (got[1] == want[1] and repr(got[1]) == repr(want[1])))):
+            what = {"new": "the decorated object", "inner": "the definition itself (a dataset), after the new dataset was built from it",
+                    "derived": "a with_options / with_default_options derivative of the decorated object"}[who]
+            bad = f"dataset decorator applied to a definition of kind '{d['kind']}': evaluate of {what} under the caller's options differs from callback(the definition " \
+                  "under the independently overlaid dictionary / the implementation registered for the dispatch value there)"
+        elif meth == "validate" and got[0] != want[0]:
+            bad = f"dataset decorator applied to a definition of kind '{d['kind']}': validate {'fails' if got[0] == 'err' else 'passes'} although evaluation under the " \
+                  "independently overlaid dictionary " + ("succeeds" if want[0] == "ok" else "fails")
+        if bad is None:
+            for what, lv, before, rep in w.held:
+                if lv != before or repr(lv) != rep:
+                    bad = f"{meth} modified an input dictionary ({what})"
+                    want, got = rep, repr(lv)
+                    break
+        if bad:
+            out.append(dict(desc=bad, step=j, op=[meth, who, repr(o)], got=repr(got), want=repr(want), definition_kind=d["kind"], finding=None,
+                            wrap_case=cp.dump_scn(c)))
+            break
+    return out, checks
 
 
 # ----------------------------------------------------------------------------- round 3: a history between derivation and evaluation
@@ -553,6 +1301,18 @@ def mutation_check(scn):
 
 
 def replay(ctx, payload):
+    if "kind_case" in payload:
+        c = cp.load_scn(payload["kind_case"])
+        v, kl = check_kinds(c)
+        mm, _ = kind_correspondence(ctx, [(c, kl)], "Replay_C08_kinds")
+        return bool(v) or bool(mm), dict(mapping_kind=c["kind"], plan=c["plan"], ops=[(op[0], repr(op[4])) for op in c["scn"]["ops"]], observed=kl,
+                                         violations=[{k: x.get(k) for k in ("desc", "op_index", "got", "want", "before", "after")} for x in v],
+                                         model_mismatch=[{k: x[k] for k in ("op", "impl", "model")} for x in mm])
+    if "wrap_case" in payload:
+        c = cp.load_scn(payload["wrap_case"])
+        v, _ = check_wrap(c)
+        return bool(v), dict(definition=c["defn"], decorator=c["deco"], derive=c["derive"], history=c["hist"],
+                             violations=[{k: x[k] for k in ("desc", "step", "op", "got", "want")} for x in v])
     if "late_case" in payload:
         c = cp.load_scn(payload["late_case"])
         v, obs, _ = check_late(c)
@@ -562,7 +1322,7 @@ def replay(ctx, payload):
                                          model_mismatch=[{k: x[k] for k in ("method", "impl", "model")} for x in mm])
     if "scenario_repr" not in payload:
         for b in payload.get("broken", []):
-            if isinstance(b, dict) and b.get("late_case"):
+            if isinstance(b, dict) and (b.get("late_case") or b.get("kind_case")):
                 return replay(ctx, b)
         return True, {"note": "payload carries no scenario (a proof obligation or the build broke); re-run the check"}
     scn = cp.load_scn(payload["scenario_repr"])
